@@ -32,10 +32,10 @@ def _instrument():
 
 def _fname(gz): return {False:'res.log', True:'res.log.gz', 'mid':'res.gz.bak'}[gz]      # 'mid': a gzip log whose name does not END in .gz
 
-def full_log(prog, gz):
+def full_log(prog, gz, seed=1):
     d = tempfile.mkdtemp(prefix='c02_')
     f = os.path.join(d, _fname(gz))
-    res = exp.run_real(prog, result_file=f, processes=1, maxchunksperchild=0, maxtasksperchunk=0)
+    res = exp.run_real(prog, result_file=f, seed=seed, processes=1, maxchunksperchild=0, maxtasksperchunk=0)
     L = open(f,'rb').read()
     shutil.rmtree(d, ignore_errors=True)
     return L, exp.comparable(res)
@@ -92,15 +92,15 @@ def _classify(v):
     return w.split(':')[0][:110]
 
 def params(tier):
-    return [dict(prog=p, gz=g, mode=m) for p in PROGS for g in (False,True) for m in ('inproc','emu0','emu1')] + [dict(prog=PROGS[0], gz='mid', mode='inproc'), dict(prog=PROGS[2], gz='mid', mode='emu1')]
+    return [dict(prog=p, gz=g, mode=m) for p in PROGS for g in (False,True) for m in ('inproc','emu0','emu1')] + [dict(prog=PROGS[0], gz='mid', mode='inproc'), dict(prog=PROGS[2], gz='mid', mode='emu1')] + [dict(prog='chunk_shuffle', gz=False, mode=m, seed=0.123456789) for m in ('inproc','emu1')]   # an experiment seed the log cannot hold exactly (floats are written with 5 decimals)
 
 @obligation('C02','resume', bounds={'quick':"4 program shapes x {plain,.gz} (+ a gzip log named res.gz.bak for two shapes) x re-run mode {in-process, emulated workers mt=0, mt=1}; crash offset k (z3 int) over every record boundary, +-1 byte, and every byte of the last interaction record (plain) / every gzip member boundary and every 7th compressed byte (.gz)",
                                     'thorough':"every byte of every log"},
             functions=FUNCS, params=params, classify=_classify, budget={'quick':100,'thorough':3000})
-def resume(sym, prog, gz, mode):
+def resume(sym, prog, gz, mode, seed=1):
     _instrument()
     tier = os.environ.get('VERIF_TIER_EFFECTIVE','quick')
-    L, ref = full_log(prog, gz)
+    L, ref = full_log(prog, gz, seed)
     offs = offsets(L, gz, tier)
     ki = sym.int('k_index', 0, len(offs)-1)
     k = offs[unwrap(ki)]
@@ -113,9 +113,9 @@ def resume(sym, prog, gz, mode):
         total = n_complete_I(L, gz)
         del EVALS[:]
         try:
-            if mode == 'inproc': res = exp.run_real(prog, result_file=f, processes=1, maxchunksperchild=0, maxtasksperchunk=0)
+            if mode == 'inproc': res = exp.run_real(prog, result_file=f, seed=seed, processes=1, maxchunksperchild=0, maxtasksperchunk=0)
             else:
-                res = exp.emulate(prog, mt=int(mode[-1]), result_file=f)
+                res = exp.emulate(prog, seed=seed, mt=int(mode[-1]), result_file=f)
         except Exception as e:
             sym.fail(f"resuming from a log cut at byte {k} of {len(L)} raised {type(e).__name__}: {str(e)[:80]}")
         got = exp.comparable(res)
